@@ -7,6 +7,7 @@ import (
 	"go/types"
 	"sort"
 	"strings"
+	"unicode"
 
 	"golang.org/x/tools/go/ssa"
 )
@@ -86,6 +87,18 @@ func (w *Workspace) verifyFunction(key string, ct *Contract) (res *FuncResult) {
 		fn = w.funcs[strings.TrimSuffix(key, "@"+ct.View)]
 	}
 	if fn == nil && !ct.IsLemma {
+		// an unexported helper that was inlined into its callers or folded away: its contract has nothing left to speak
+		// about, and whatever it carried is now decided by the contracts of the callers (which must verify with the
+		// helper's former body in place). An exported function (handler, keeper API) that disappears is an error.
+		base := ct.Key
+		if i := strings.LastIndex(base, "."); i >= 0 {
+			base = base[i+1:]
+		}
+		base = strings.TrimSuffix(base, "@"+ct.View)
+		if base != "" && unicode.IsLower(rune(base[0])) && !strings.Contains(base, "$") {
+			res.Notes = append(res.Notes, fmt.Sprintf("unexported function %s is under contract but no longer exists: contract skipped, its callers carry the obligations", ct.Key))
+			return
+		}
 		res.Err = fmt.Sprintf("function %s is under contract but no longer exists in the package", ct.Key)
 		return
 	}
